@@ -343,6 +343,97 @@ theorem no_work_after_stop {c : Cfg} (hfx : c.fx = Fix.all) {conc0 : Nat} {s s' 
       | contradiction
       | (cases hs; rfl)
 
+theorem getStep_stopReq (s : St) : (getStep s).stopReq = s.stopReq := by
+  simp only [getStep, notifyProd, workerGone]; repeat' split
+  all_goals rfl
+
+theorem doStop_stopReq (c : Cfg) (s : St) : (doStop c s).stopReq = s.stopReq := by
+  simp only [doStop, putPills, wakeGetters, setUnpaused]; repeat' split
+  all_goals rfl
+
+theorem prodLoop_stopReq (c : Cfg) (s : St) : (prodLoop c s).stopReq = s.stopReq := by
+  simp only [prodLoop, prodFinish, prodGone]; split <;> simp [doStop_stopReq]
+
+/-- a stop request is never forgotten -/
+theorem stopReq_mono {c : Cfg} {s s' : St} {a : Act} (hs : step c s a = some s') (h : s.stopReq = true) :
+    s'.stopReq = true := by
+  cases a with
+  | prod =>
+    simp only [step, stepProd] at hs
+    repeat' split at hs
+    all_goals first
+      | contradiction
+      | (cases hs; simp [prodLoop_stopReq, prodFinish, prodGone, doStop_stopReq, putNow, wakeGetters, h])
+  | main =>
+    simp only [step, stepMain, mainLoop, shutdown, shutProd, awaitProd] at hs
+    repeat' split at hs
+    all_goals first
+      | contradiction
+      | (cases hs; simp [h])
+  | getw =>
+    simp only [step, stepGetw] at hs
+    split at hs
+    · cases hs; rw [getStep_stopReq]; exact h
+    · contradiction
+  | task i ok =>
+    simp only [step, stepTask] at hs
+    repeat' split at hs
+    all_goals first
+      | contradiction
+      | (cases hs; simp [getStep_stopReq, notifyProd, workerGone, h])
+  | stop =>
+    simp only [step] at hs
+    split at hs
+    · contradiction
+    · cases hs; rw [doStop_stopReq]
+  | setConc n =>
+    simp only [step, doSetConc, putPills, wakeGetters, setUnpaused] at hs
+    repeat' split at hs
+    all_goals first
+      | contradiction
+      | (cases hs; simp [h])
+
+/-- **After a stop request no item begins.**  From the moment `stop()` has been requested, along EVERY
+continuation of the run (any further steps, completions, failures, concurrency changes, further stops):
+no item begins its first task — the number of "task 0 started" events never grows, so an item that
+was merely queued (or held by the producer) when the stop came is never processed, only the items
+already inside a task finish — and `get_item` is never called again.  (The queue hands out poison pills
+before any queued item, and `stop()` inserts one pill per worker task.) -/
+theorem no_item_begins_after_stop_request {c : Cfg} (hfx : c.fx = Fix.all) {conc0 : Nat} :
+    ∀ (acts : List Act) (s s' : St), Reach c conc0 s → s.stopReq = true → runActs c s acts = some s' →
+      startsIn s'.log = startsIn s.log ∧ s'.srcCalls = s.srcCalls
+  | [], s, s', _, _, h => by simp [runActs] at h; subst h; exact ⟨rfl, rfl⟩
+  | a :: as, s, s', hr, hstop, h => by
+    simp only [runActs] at h
+    split at h
+    · rename_i s1 hs1
+      have hR := (inv_reach hfx hr).2.2
+      have hps := hR.r0 hstop
+      have hm : s.main ≠ .init := fun e => by have := hR.rinit e; simp [hstop] at this
+      have h1 := no_work_after_stop hfx hr hps hm hs1
+      have h2 := no_item_begins_after_stop_request hfx as s1 s' (Reach.step a hr hs1) (stopReq_mono hs1 hstop) h
+      exact ⟨h2.1.trans h1.2, h2.2.trans h1.1⟩
+    · contradiction
+
+/-- **Returned means nothing is in flight.**  When `process()` has returned no worker task is alive and
+no item is inside a task: every item that began has either passed every task or its failure was raised. -/
+theorem returned_nothing_in_flight {c : Cfg} (hfx : c.fx = Fix.all) {conc0 : Nat} {s : St}
+    (hr : Reach c conc0 s) (hret : s.main = .returned) :
+    s.live = 0 ∧ s.failedItems = 0 ∧ ∀ (i k : Nat), s.items[i]? ≠ some (Ph.run k) := by
+  obtain ⟨hn, _, hR⟩ := inv_reach hfx hr
+  have hl := (hR.e4c hret).1
+  have hf : s.failedItems = 0 := by
+    rcases Nat.eq_zero_or_pos s.failedItems with h | h
+    · exact h
+    · rcases hn.hfail h with h1 | h1
+      · have := (hR.e4c hret).2; omega
+      · simp [hret] at h1
+  refine ⟨hl, hf, fun i k hik => ?_⟩
+  have := countRun_pos hik
+  have hb := hn.hbusy
+  simp only [St.live] at hl
+  omega
+
 /-- **Returns after a stop.**  Once `stop()` has been requested, every complete run has ended with
 `process()` completed (returned, or raised if something failed): together with
 `no_work_after_stop` — no further `get_item`, no further item started, so only the items in
@@ -438,6 +529,15 @@ worker), then item 1's task raises: `process()` raises although the pipeline is 
 example : ∃ s, runActs ⟨3, 0, false, Fix.all⟩ (initSt 2)
       [main, prod, prod, getw, prod, getw, setConc 0, task 0 true, main, task 1 false, main] = some s ∧
     s.pstate = .running ∧ s.conc = 0 ∧ s.main = .raised ∧ 0 < s.failedItems := by
+  decide
+
+open Act in
+/-- non-vacuity of `no_item_begins_after_stop_request`: one worker busy with item 0, item 1 already in the queue,
+`stop()`, item 0 finishes: its worker takes the poison pill (ahead of item 1) and leaves; item 1 stays queued and
+never begins -/
+example : ∃ s, runActs ⟨3, 0, false, Fix.all⟩ (initSt 1) [main, prod, prod, getw, prod, stop, task 0 true] = some s ∧
+    s.stopReq = true ∧ s.qitem = some 1 ∧ s.pills = 0 ∧ s.exited = 1 ∧ startsIn s.log = 1 ∧
+    s.items = [.done, .queued] := by
   decide
 
 /-- a hang: nothing can move, nothing is outstanding, `process()` has not completed and the
